@@ -12,7 +12,7 @@
   reachable run produces a message outside it is decided on the implementation
   (`harness/props/c20.py`, substring scan of real outputs).
 -/
-import CTM.Lemmas.Sanitize
+import CTM.Lemmas.SanitizeWords
 
 namespace CTM.C20
 open CTM.Sanitize
@@ -107,6 +107,119 @@ existing prefix `/home` (it becomes `/home/utmp/q`). -/
 theorem infix_key_leaks :
     sanitizeStr demoHost "/tmp /home/u/tmp/q".toList = .ok "tmp /home/utmp/q".toList := by
   decide
+
+/-- what the sanitiser is meant to turn a word into: an exposed word becomes its file name /
+package-relative path, any other word stays -/
+def wordImage (h : Host) (w : Str) : Str :=
+  if isExposed h.ex (wordToPath w) = true then
+    match safeName h (wordToPath w) with
+    | .ok v => v
+    | .error _ => w
+  else w
+
+/-- the hypothesis under which substring replacement is safe: no exposed word of the message
+occurs inside a *different* word of it, nor inside what a different word is replaced by
+(`infix_key_leaks` shows what happens otherwise) -/
+def Independent (h : Host) (ws : List Str) : Prop :=
+  ∀ k ∈ ws, isExposed h.ex (wordToPath k) = true → ∀ w ∈ ws, k ≠ w →
+    ¬ k <:+: w ∧ ¬ k <:+: wordImage h w
+
+/-- the general word-level statement, for messages of any number of words and any
+whitespace: under `Independent`, the words of the sanitised message are exactly the words
+of the message with every exposed one replaced by its file name / package-relative path
+(a replacement that is empty -- the word `//` -- vanishes). -/
+theorem words_spec (h : Host) (s out : Str) (hres : ∀ p, WsFree (h.resolve p))
+    (hind : Independent h (splitWs s)) (hout : sanitizeStr h s = .ok out) :
+    splitWs out = ((splitWs s).map (wordImage h)).filter nonEmpty ∧
+    ∀ w ∈ splitWs s, isExposed h.ex (wordToPath w) = true →
+      safeName h (wordToPath w) = .ok (wordImage h w) := by
+  unfold sanitizeStr at hout
+  cases hb : buildSubs h (splitWs s) [] with
+  | error e => rw [hb] at hout; cases hout
+  | ok subs =>
+    rw [hb] at hout
+    simp only [Except.ok.injEq] at hout
+    have hout' : out = substituteAll subs s := by
+      rw [← hout]
+      cases subs with
+      | nil => rfl
+      | cons a b => rfl
+    obtain ⟨inv, hkeys, _, hfrom⟩ :=
+      buildSubs_spec h (splitWs s) [] subs ⟨by simp [keysOf], by simp⟩ hb
+    have hws := splitWs_words s
+    have hkw : ∀ kv ∈ subs, kv.1 ∈ splitWs s := by
+      intro kv hkv
+      rcases hfrom kv.1 (List.mem_map.mpr ⟨kv, hkv, rfl⟩) with h1 | h1
+      · simp [keysOf] at h1
+      · exact h1
+    have himg : ∀ w ∈ splitWs s, isExposed h.ex (wordToPath w) = true →
+        (w, wordImage h w) ∈ subs ∧ safeName h (wordToPath w) = .ok (wordImage h w) := by
+      intro w hw hex
+      obtain ⟨kv, hkv, hk⟩ := List.mem_map.mp (hkeys w hw hex)
+      have hsub := inv.2 kv hkv
+      have hk : kv.1 = w := hk
+      rw [hk] at hsub
+      have hi : wordImage h w = kv.2 := by
+        unfold wordImage
+        simp [hex, hsub.2]
+      rw [hi]
+      refine ⟨?_, hsub.2⟩
+      rw [← hk]
+      exact hkv
+    have hpoint : ∀ w ∈ splitWs s, substituteAll subs w = wordImage h w := by
+      intro w hw
+      by_cases hex : isExposed h.ex (wordToPath w) = true
+      · apply substituteAll_key subs w _ (hws w hw).1 inv.1 (himg w hw hex).1
+        intro kv hkv hne
+        exact hind kv.1 (hkw kv hkv) (inv.2 kv hkv).1 w hw hne
+      · have hi : wordImage h w = w := by simp [wordImage, hex]
+        rw [hi]
+        apply substituteAll_not_infix
+        intro kv hkv
+        have hne : kv.1 ≠ w := by
+          intro he
+          apply hex
+          rw [← he]
+          exact (inv.2 kv hkv).1
+        exact (hind kv.1 (hkw kv hkv) (inv.2 kv hkv).1 w hw hne).1
+    refine ⟨?_, fun w hw hex => (himg w hw hex).2⟩
+    rw [hout', splitWs_substituteAll subs ?_ s]
+    · rw [List.map_congr_left hpoint]
+    · intro kv hkv
+      have hw := hws kv.1 (hkw kv hkv)
+      exact ⟨hw.1, hw.2, safeName_wsFree h hres kv.1 kv.2 hw.2 (inv.2 kv hkv).2⟩
+
+/-- "after sanitising, no whitespace-delimited word whose quote-stripped form starts with '/'
+is exposed": under `Independent` (and resolved paths free of whitespace and quote characters)
+every word of a sanitised message is either a word of the original message that is not
+exposed, or the replacement of an exposed one -- and a replacement, quotes stripped or not,
+does not start with '/'. -/
+theorem words_clean (h : Host) (s out : Str) (hres : ∀ p, WsFree (h.resolve p))
+    (hresq : ∀ p, QuoteFree (h.resolve p))
+    (hind : Independent h (splitWs s)) (hout : sanitizeStr h s = .ok out) :
+    ∀ w' ∈ splitWs out, (stripQuotes w').head? = some '/' →
+      w' ∈ splitWs s ∧ isExposed h.ex (wordToPath w') = false := by
+  intro w' hw' hhead
+  obtain ⟨hspec, hsafe⟩ := words_spec h s out hres hind hout
+  rw [hspec] at hw'
+  obtain ⟨w, hw, hi⟩ := List.mem_map.mp (List.mem_filter.mp hw').1
+  by_cases hex : isExposed h.ex (wordToPath w) = true
+  · exfalso
+    have hs := hsafe w hw hex
+    rw [hi] at hs
+    have hq := safeName_quoteFree h hresq w w' hs
+    rw [stripQuotes_of_quoteFree w' hq] at hhead
+    exact replacement_not_absolute h w w' hs hhead
+  · have : wordImage h w = w := by simp [wordImage, hex]
+    rw [this] at hi
+    subst hi
+    exact ⟨hw, by simpa using hex⟩
+
+/-- non-vacuity: a three-word message with two exposed words (one nested under the other's
+directory, which `Independent` allows only if neither occurs inside the other -- here they
+are apart), separated by a newline and a tab -/
+example : sanitizeStr demoHost "copied /abs/existing/q.h5ad\n\tto '/tmp/x',".toList
+    = .ok "copied q.h5ad\n\tto x,".toList := by decide
 
 /-- "configuration sanitised up front and scratch/output directory keys removed": in a
 cloud-safe run the recorded configuration has neither `extended_result_dir` nor `tmp_dir`,
